@@ -179,6 +179,26 @@ def finish(res: Result, *, tier: str, seed: int, t0: float, checker_cmd: str, as
         else:
             still_undecided.append(name)
     undecided = still_undecided
+    # the code left the shape the contracts are written for (unsupported construct, unexpected exception): no verdict from the verifier.
+    # The native replay battery of the property is run on the real code: a reproduced failing input is reported as a violation.
+    if nviol == 0 and res.errors and not res.crashes:
+        tried = set()
+        for er in res.errors:
+            label = er.split(':')[0].strip()
+            if label in tried or len(tried) >= 2:
+                continue
+            tried.add(label)
+            name = f'{prop}.undecided[{label}]'
+            ent = {'verdict': 'undecided', 'detail': er, 'model': None, 'path': [], 'instances': 0, 'seconds': 0.0, 'backends': {}, 'trivial': 0}
+            try:
+                confirmed, path = replay(name, ent)
+            except Exception:
+                confirmed, path = None, None
+            if confirmed:
+                lines.append(f'VIOLATION property={prop} replay={path} obligation={name} (no verdict from the verifier: {er[:120]}; native replay found the failing input)')
+                nviol += 1
+                exit_code = 1
+                break
     for name, kf, e in known_hits:
         try:
             confirmed, _p = replay(name, e)
